@@ -28,6 +28,13 @@ def gen(rng, tier, info):
             ct = (W + H) % 3
             cases.append(vlib.Case("timg %d %d %d" % (ct, W, H), "T19Raster %d %d %d" % (ct, W, H), rng.choice(["db", "rb"]),
                                    tags=["raster", "ge32" if W >= 32 and H >= 32 else "lt32", "ct%d" % ct], nontrivial=W >= 32 and H >= 32))
+    # a target whose bounding box does not start at the origin (e.g. embedded-graphics' `clipped` / `translated`
+    # adaptors): the picture must simply move with it
+    for (W, H, ox, oy) in [(32, 32, 7, 3), (40, 33, -5, 11), (48, 36, 100, 200), (33, 47, -40, -40), (12, 9, 3, 3), (0, 5, 2, 2),
+                           (64, 40, 1, 0)] + ([(rng.range(32, 60), rng.range(32, 60), rng.range(-50, 50), rng.range(-50, 50)) for _ in range(6)]):
+        ct = rng.below(3)
+        cases.append(vlib.Case("timg %d %d %d %d %d" % (ct, W, H, ox, oy), "T19Raster %d %d %d" % (ct, W, H), rng.choice(["db", "rb"]),
+                               tags=["raster-offset-target"], nontrivial=W >= 32 and H >= 32))
     big = [(100, 37), (240, 320), (320, 240), (135, 240), (33, 200), (1000, 1000), (4000, 3000), (65535, 33), (33, 65535), (32, 32),
            (2, 70000), (70000, 3), (1999, 1237)]
     if tier == "thorough":
@@ -45,7 +52,7 @@ def gen(rng, tier, info):
         cases.append(vlib.Case(line, coq, "rb", tags=["probe"], nontrivial=W >= 32 and H >= 32))
     # through a real Display
     for _ in range(24 if tier == "quick" else 160):
-        pc, m, lw, lh, cmax = drawgen.config(rng, info, ifaces=(0, 1, 2, 7), models=[112, 212, 105, 107, 104])
+        pc, m, lw, lh, cmax = drawgen.config(rng, info, ifaces=(0, 1, 2, 7), models=[112, 212, 105, 107, 104, 0, 11, 1, 12, 2, 3, 10])
         o = pc["opts"]
         if m["fw"] >= 40 and m["fh"] >= 40:
             o["w"] = rng.range(32, min(m["fw"], 70))
